@@ -480,7 +480,10 @@ pub fn loop_value_programs() -> Vec<(String, String)> {
 /// then put through run-time type tests whose bodies use the elements at the tested type: whatever tag an
 /// implementation stores with an array, a test that passes must be true of the contents
 pub fn provenance_type_test_programs() -> Vec<String> {
-    let pieces: [(&str, &str); 10] = [
+    let pieces: [(&str, &str); 17] = [
+        // element types related by subtyping (one piece's tag covers the other's)
+        ("[1]", "[1, 2.5]"), ("[1, 2.5]", "[1]"), ("[1]", "[2, \"a\"]"), ("[\"a\", 1]", "[\"b\"]"), ("[[1]]", "[[1], [2.5]]"),
+        ("[struct{x := 1, y := 2}]", "[struct{x := 1, y := 2}, struct{x := 3}]"), ("[(1, 2)]", "[(1, 2), (1, \"a\")]"),
         ("[1]", "[2.5]"), ("[2.5]", "[1]"), ("[1]", "[\"a\"]"), ("[1, 2]", "[]"), ("[]", "[2.5]"), ("[1]", "[1, 2.5][1:]"), ("[1, 2.5][:1]", "[3]"),
         ("[[1]]", "[[2.5]]"), ("[(1, 2)]", "[(1, \"a\")]"), ("[struct{x := 1, y := 2}]", "[struct{x := 2.5}]"),
     ];
